@@ -117,3 +117,72 @@ PROPS["C04"] = dict(
     assumptions=["no aliasing calls (concat(a,a), assign(a,a))", "Tuple elements are distinct objects (repeated "
                  "pointers are covered by C11)"],
 )
+
+PROPS["C16"] = dict(
+    harness="c16_string.c", level="exploration",
+    technique="runtime reference-model monitor: libc-maintained reference buffer compared with the heap String "
+              "(contents, NUL inside the allocation via ASan, len, hash, cmp/eq, mem, rem) after every operation",
+    level_text="Exploration: generated sequences of assign/concat/append/resize(shrink, grow, 0)/rem/print_to on heap "
+               "Strings over four alphabets (two-letter for overlapping occurrences, full byte range, format "
+               "metacharacters), operands empty, equal to the target, substrings at start/middle/end, absent; every "
+               "observable compared with libc on the reference after every operation, under ASan+UBSan.",
+    level_note="Trusts libc (strcpy/strcat/strstr/memmove/strcmp) on the reference buffer.",
+    quick=[("asan", 16, 600)],
+    thorough=[("asan", 16, 6000), ("plain", 16, 20000)],
+    floors={"quick": {"rem_at_start": 20, "rem_in_middle": 20, "rem_at_end": 20, "rem_overlapping_occurrences": 5,
+                      "rem_first_of_several": 20, "rem_absent": 20, "empty_argument": 20,
+                      "argument_equal_to_target": 10, "resize_0": 10, "resize_grow": 20, "formatted_writes": 50}},
+    rule="case = one heap String driven through 25-75 (thorough: up to 145) random operations, all observables "
+         "compared with the reference after each; distinct = hash of the operation list; non-trivial = more than 10 "
+         "operations",
+    assumptions=["no aliasing calls (concat(s,s))", "for an absent rem operand only 'string unchanged, no crash' is "
+                 "required here; the exception kind belongs to C12"],
+)
+
+PROPS["C14"] = dict(
+    harness="c14_format.c", level="exploration",
+    technique="runtime differential oracle: generated format strings, per-specification snprintf reference, String "
+              "sink vs File sink vs returned position, ASan on exact-size format text",
+    level_text="Exploration: format strings generated from the grammar literal | %% | %[flags][width][.prec][length]"
+               "conv | %$ (1-7 items, specifications at the very start/end and adjacent), arguments over the full "
+               "Int/Float/String ranges, every start position class; String sink contents and returned position "
+               "checked against the concatenated snprintf reference, File sink read back byte-identical, too few "
+               "arguments must raise FormatError; %$ checked against the object's own show text and against an "
+               "independent reference for Int/Float/String/Type/Array/List/Tuple/Table.",
+    level_note="The reference uses the same libc printf engine per specification; what is checked is Cello's "
+               "splitting, argument conversion, sink handling and position accounting.  *, L, n, lc, ls are outside "
+               "Cello's one-argument-per-specification interface and are not generated.",
+    quick=[("asan", 16, 1500)],
+    thorough=[("asan", 16, 20000), ("plain", 16, 40000)],
+    floors={"quick": {"spec_at_very_start": 100, "spec_at_very_end": 100, "adjacent_specs": 100,
+                      "nonzero_start_positions": 100, "file_sink_runs": 100, "too_few_argument_runs": 100,
+                      "items_show": 100, "items_float": 100, "items_int": 100, "items_string": 100}},
+    rule="case = one generated format string of 1-7 items with its arguments, printed to a String at a chosen start "
+         "position, to a File, and once with one argument too few; distinct = hash of the format text; non-trivial = "
+         "at least two items and one argument",
+    assumptions=["%d/%hd/%hhd/%c receive values in int range, %ld etc. the full int64 range", "NUL is never printed "
+                 "with %c (it would end the String sink)"],
+)
+
+PROPS["C15"] = dict(
+    harness="c15_roundtrip.c", level="exploration",
+    technique="runtime round-trip oracle: write with show/print_to, read back with look/scan_from, compare value "
+              "and consumed position, String and File sinks, under ASan+UBSan",
+    level_text="Exploration: Int (boundaries + random int64), finite Float (denormals, +-DBL_MAX, beyond FLT_MAX) "
+               "and String (every byte value 1..255, quotes, backslashes, control characters) written with show, %$ "
+               "or a numeric specification and read back with look / scan_from with the same specification, alone "
+               "and in sequences of 2-5 items with non-alphanumeric separators, at start positions 0..8, from a "
+               "String and from a File (reopen or seek back); value and position oracles.",
+    level_note="Float equality is 'within the printed precision' (0.5e-6 for %f, 6 significant digits for %e/%g, "
+               "exact for %a). Numeric scan specifications are those valid in both printf and scanf (no precision).",
+    quick=[("asan", 16, 1500)],
+    thorough=[("asan", 16, 20000), ("plain", 16, 40000)],
+    floors={"quick": {"fixed_roundtrips": 250, "sequences_with_separators": 100, "nonzero_start_positions": 100,
+                      "file_reopen": 50, "file_seek_back": 50, "int_numeric_spec_int_range_negative": 10,
+                      "float_numeric_spec": 50, "int_numeric_spec_full_range": 50}},
+    rule="case = 1-5 generated values written with one format and read back with the same format, from a String at "
+         "a chosen start position and from a File; distinct = hash of format + values; non-trivial = a sequence of "
+         "at least two values",
+    assumptions=["NaN and infinities excluded (finite doubles, as stated)", "separators are non-alphanumeric, "
+                 "non-whitespace characters that cannot continue a number"],
+)
